@@ -294,8 +294,10 @@ def install_file_info_stub(eng, state):
         return f
 
     eng.overrides[(PZ, "SevenZipFile._make_file_info")] = mk
-    # symlink members store the link target text: Worker._find_link_target touches the filesystem
-    eng.overrides[(PZ, "Worker._find_link_target")] = lambda eng, worker, target: "target/of/" + target.name
+    # symlink members store the link target text: only readlink() touches the filesystem; the real
+    # Worker._find_link_target (which walks the members registered so far) runs
+    for mod in (PZ, "py7zr.helpers"):
+        eng.overrides[(mod, "readlink")] = lambda eng, path: "target/of/" + str(path)
 
 
 # ===================================================================================== read side
